@@ -15,6 +15,7 @@ import PyImpSpec.KKTau
 import PyImpSpec.KKAuto
 import PyImpSpec.Fit
 import PyImpSpec.Drt
+import PyImpSpec.Cli
 
 /-! Line-protocol driver: one request per line (`<model> <op> <args…>`), one canonical reply per line.
 Run with `lake env lean --run Driver/Main.lean`.  The harness sends the same inputs to the real
@@ -179,6 +180,32 @@ def fitReply (a : List String) : String :=
     (match Fit.pick l with
      | .ok r => s!"ok {r.tag}"
      | .error e => s!"err {e}")
+  | _ => "bad-op"
+
+/-! ### C19: command-line glue -/
+
+def hexDigit (n : Nat) : Char := if n < 10 then Char.ofNat (48 + n) else Char.ofNat (87 + n)
+def encodeHex (s : String) : String :=
+  String.ofList (s.toUTF8.toList.flatMap fun b => [hexDigit (b.toNat / 16), hexDigit (b.toNat % 16)])
+
+/-- `cli filt f,f,… m,m,… low high i,i,…` / `cli ident <hex>` -/
+def cliReply (a : List String) : String :=
+  match a with
+  | ["filt", fs, ms, low, high, excl] =>
+    let f := (splitList fs).map String.toInt!
+    let d : DataSet.DS := ⟨f, f.map fun _ => 0, (splitList ms).map (· = "1")⟩
+    (match Cli.applyFilters d ⟨low.toInt!, high.toInt!, (splitList excl).map String.toInt!⟩ with
+     | .ok d' => "ok " ++ ",".intercalate (d'.mask.map fun b => if b then "1" else "0")
+     | .error e => s!"err {e}")
+  | ["ident", h] =>
+    let str := (decodeHex h).toList
+    let tr := if Cli.hasArgs str then Cli.traceArgs (Cli.splitOn ',' (str.drop ((Cli.rfind ':' str).toNat + 1))) else []
+    let trs := if tr.isEmpty then "-" else ",".intercalate (tr.map fun p => encodeHex (String.ofList p.1) ++ "=" ++ encodeHex (String.ofList p.2))
+    trs ++ " " ++ (match Cli.parseIdentity str with
+     | .ok (ident, kw) => s!"ok {encodeHex (String.ofList ident)} " ++
+         (if kw.isEmpty then "-" else ",".intercalate (kw.map fun p => encodeHex (String.ofList p.1) ++ "=" ++ encodeHex (String.ofList p.2)))
+     | .error e => s!"err {e}")
+  | ["mock", h] => if Cli.isMockSpec (decodeHex h).toList then "ok 1" else "ok 0"
   | _ => "bad-op"
 
 /-- analysis kernels on complex arguments: `kerc <name> Z_exp=re;im Z_fit=re;im` -/
@@ -550,6 +577,7 @@ def step (st : DState) (line : String) : DState × String :=
     (st, match Drt.deltas (0.5 : Float) (xs.map parseFloat) with
       | some d => "ok " ++ " ".intercalate (d.map fun x => toString x.toBits)
       | none => "err IndexError")
+  | "cli" :: a => (st, cliReply a)
   | "lim" :: a => (st, limReply a)
   | "fit" :: a => (st, fitReply a)
   | "pick" :: a => (st, pickReply a)
